@@ -23,10 +23,12 @@ pub fn def() -> CheckDef {
                Thorough adds the bundled benchmark models with the benchmark formulae. Non-trivial: some replaced sub-formula's result is \
                neither empty nor the unit set; distinct by (network, formula, substituted formula).",
         assumptions: &["substitution is purely syntactic on the harness's own formula tree"],
-        cases: |t| if t == Tier::Quick { 4000 } else { 200_000 },
+        cases: |t| (if t == Tier::Quick { 4000 } else { 200_000 }) + super::big::count(t),
         needs: |t| {
             let m = if t == Tier::Quick { 1 } else { 30 };
-            vec![("distinct_nontrivial", 400 * m), ("ev_cache_hit_wild_card", 500 * m), ("cases_with_two_or_more_replacements", 200 * m), ("cases_with_repeated_label", 30 * m), ("surrounding_formula_with_domains", 500 * m)]
+            let big_min = super::big::count(t) / 2;
+            vec![
+                ("big_model_cases_completed", big_min),("distinct_nontrivial", 400 * m), ("ev_cache_hit_wild_card", 500 * m), ("cases_with_two_or_more_replacements", 200 * m), ("cases_with_repeated_label", 30 * m), ("surrounding_formula_with_domains", 500 * m)]
         },
         run,
         prelude: None,
@@ -65,7 +67,12 @@ pub fn substitute(f: &F, rng: &mut Rng, picked: &mut Vec<(String, F)>, is_root: 
     }
 }
 
-fn run(rng: &mut Rng, _idx: u64, tier: Tier) -> CaseOut {
+fn run(rng: &mut Rng, idx: u64, tier: Tier) -> CaseOut {
+    let small: u64 = if tier == Tier::Quick { 4000 } else { 200_000 };
+    if idx >= small {
+        // bundled benchmark-size models (child process, see bigrun.rs / big.rs)
+        return super::big::run("C10", idx - small, rng, tier);
+    }
     let mut nopts = NetOpts::default();
     if tier == Tier::Thorough {
         nopts.max_vars = 5;
